@@ -261,6 +261,14 @@ func (ex *Exec) mkAEAD(key []*Term) Value {
 				ex.throwMsg(nil, 0, "crypto/cipher: incorrect nonce length given to GCM")
 			}
 			fail := func() Value {
+				// as crypto/cipher: the would-be plaintext region of dst is zeroed when
+				// authentication fails (visible when dst shares memory with the ciphertext)
+				if n := len(ct) - 16; n > 0 && cap(dst)-len(dst) >= n {
+					region := dst[len(dst) : len(dst)+n]
+					for i := range region {
+						region[i] = byteConst(0)
+					}
+				}
 				return Tuple{[]Value(nil), ex.newErrorString("cipher: message authentication failed")}
 			}
 			if len(ct) < 16 {
